@@ -23,10 +23,12 @@ CONFIGS = {
                          ("SpeakerMC_bgp_sim.cfg", "sim", None)]},
     "C09": {"quick": [("SpeakerMC_conv.cfg", "edges", 4000), ("SpeakerMC_convml.cfg", "edges", 3000),
                       ("SpeakerMC_convdual.cfg", "edges", 3000), ("SpeakerMC_convflap.cfg", "edges", None),
-                      ("SpeakerMC_convign.cfg", "edges", None), ("SpeakerMC_conv_sim.cfg", "sim", None)],
+                      ("SpeakerMC_convign.cfg", "edges", None), ("SpeakerMC_convboth.cfg", "edges", None),
+                      ("SpeakerMC_convscope.cfg", "edges", None), ("SpeakerMC_conv_sim.cfg", "sim", None)],
             "thorough": [("SpeakerMC_conv.cfg", "edges", None), ("SpeakerMC_convml.cfg", "edges", None),
                          ("SpeakerMC_convdual.cfg", "edges", None), ("SpeakerMC_convflap.cfg", "edges", None),
-                         ("SpeakerMC_convign.cfg", "edges", None), ("SpeakerMC_conv3.cfg", "edges", 100000),
+                         ("SpeakerMC_convign.cfg", "edges", None), ("SpeakerMC_convboth.cfg", "edges", None),
+                         ("SpeakerMC_convscope.cfg", "edges", None), ("SpeakerMC_conv3.cfg", "edges", 100000),
                          ("SpeakerMC_conv_sim.cfg", "sim", None), ("SpeakerMC_convml_sim.cfg", "sim", None),
                          ("SpeakerMC_convign_sim.cfg", "sim", None)]},
 }
@@ -273,9 +275,14 @@ def fault_origin(walk_obs, k):
     return "none"
 
 
-def signature(name, walk_obs, k):
-    """Stable description of a failure, computed from the observations only (never decides)."""
+def signature(name, walk_obs, k, fm=()):
+    """Stable description of a failure, computed from the observations only (never decides);
+    fm = how the judge saw the started fresh speaker differ from the specification's Fresh."""
     o = walk_obs[k]
+    if name == "C09.FreshModel":
+        same = sorted(o["annL"]) == sorted(o["fresh"]["annL"]) and sorted(o["annB"]) == sorted(o["fresh"]["annB"]) \
+            and announced_view(o) == announced_view(o["fresh"])
+        return "%s|diff=%s|old=%s" % (name, ",".join(sorted(fm)) or "none", "same-as-fresh" if same else "differs-from-fresh")
     if name.startswith("C05.") and fault_origin(walk_obs, k) != "none":
         kind = ""
         if name == "C05.ReportedPeers":
@@ -325,7 +332,10 @@ def classify(fails_of_line):
             else:
                 drift.add("Converged-but-equal-to-observed-fresh")
         elif n == "C09.FreshModel":
-            drift.add("observed-fresh-differs-from-spec-Fresh")
+            # the reference itself: the fresh speaker that was started does not announce what the
+            # specification says a fresh speaker announces (otherwise C09 would compare two speakers
+            # that are wrong alike)
+            out.add(n)
         elif n == "C09.Drains":
             drift.add("walk-did-not-drain")
         elif n == "C09.DiffersFromObservedFresh":
@@ -357,14 +367,14 @@ def collect(chk, fails, byw):
                     chk.notes.append("DRIFT: %s at %s obs %d" % (d, f["w"], f["step"]))
         for name in sorted(real):
             if name.startswith(prefix):
-                mine.append((f["w"], f["step"], name))
+                mine.append((f["w"], f["step"], name, tuple(f.get("fm", ()))))
     return mine
 
 
 def confirm(chk, mine, steps, inits, cat_path, byw):
     reps = {}
-    for w, k, name in sorted(mine, key=lambda x: (x[2], len(byw[x[0]]), x[0], x[1])):
-        reps.setdefault(signature(name, byw[w], k), []).append((w, k, name))
+    for w, k, name, fm in sorted(mine, key=lambda x: (x[2], len(byw[x[0]]), x[0], x[1])):
+        reps.setdefault(signature(name, byw[w], k, fm), []).append((w, k, name))
     sel = {}
     for sig, lst in reps.items():
         for w, k, name in lst[:3]:
@@ -381,7 +391,7 @@ def confirm(chk, mine, steps, inits, cat_path, byw):
     for f in fails2:
         real, _ = classify(f["fails"])
         for name in real:
-            again.add((f["w"], name, signature(name, byw2[f["w"]], f["step"])))
+            again.add((f["w"], name, signature(name, byw2[f["w"]], f["step"], f.get("fm", ()))))
     for sig, lst in sorted(reps.items()):
         done = False
         for w, k, name in lst[:3]:
@@ -470,6 +480,9 @@ def run(chk):
         "the reference is the speaker's own announced set / addresses and the node sets of the configuration it holds",
         "nodes are never deleted; endpoints have distinct addresses; handlers run one at a time (a re-sync pass is not interleaved "
         "with node / configuration handlers); sessions never fail to start and Set never fails",
+        "C09: the reference 'what a freshly started speaker would announce' is the specification's Fresh; the fresh speaker "
+        "that is actually started on the final state must announce exactly that (C09.FreshModel, interface scope included) and "
+        "the old speaker must equal both (C09.Converged)",
         "the hash order of the two node names per address is observed from the real layer2Controller by a two-node duel",
         "aggregation lengths are 0, the 4-bit field boundary lengths (22..26 / 62..66) and the full length; length 0 needs a /0 pool "
         "(configuration validation)",
@@ -490,8 +503,8 @@ def replay(chk, path):
     chk.cov["traces_validated_against_impl"] = 1
     chk.cov["samples"].append(sc["steps"][:8])
     seen = set()
-    for w, k, name in collect(chk, fails, byw):
-        sig = signature(name, byw[w], k)
+    for w, k, name, fm in collect(chk, fails, byw):
+        sig = signature(name, byw[w], k, fm)
         if sig not in seen:
             seen.add(sig)
             chk.fail(sig, name, detail={"observation": slim(byw[w][k])}, scenario=sc)
